@@ -44,6 +44,7 @@ type bhGenerator struct {
 	burnAt   int         // scripted: at this block a proposal with a deposit in several denominations is submitted ... (-1 = none)
 	burnHow  int         // ... and one block later 0: every validator operator votes NoWithVeto, 1: nobody votes (no quorum), 2: its deposit stays below the minimum
 	burnProp uint64      // id of the scripted proposal once it is known
+	ext      bhGenExt    // parameter operations and blocked recipients (blockparams.go)
 }
 
 var bhKindWeights = map[string]int{
@@ -339,7 +340,7 @@ func (g *bhGenerator) genTx(h *histRun, b *bhBlock, blockIdx, i int) *bhTx {
 		g.dist["vote"]++
 		return &bhTx{K: "vote", F: i, N: int64(g.burnProp), V: 4}
 	}
-	k := g.pickKind()
+	k := g.extKind(g.pickKind())
 	if k == "redeem" && len(a.LiquidVestingKeeper.GetAllDenoms(ctx)) == 0 {
 		k = "liquidate"
 	}
@@ -676,6 +677,8 @@ func (g *bhGenerator) genTx(h *histRun, b *bhBlock, blockIdx, i int) *bhTx {
 		if r.Chance(6) {
 			t.A = "7"
 		}
+	default:
+		g.genExt(h, t) // param, toblocked, multisend: blockparams.go
 	}
 	g.dist[t.K]++
 	return t
